@@ -19,6 +19,10 @@ R08f the write is complete (call model `hwl.write_batch: hardware := output tag 
      list is built per register of that same list, in order, from the tag of the register's name (optionally through the
      register's from_tag), exactly one value per register on every path, and both lists are handed to
      hwl.write_batch(values, registers) in that order - otherwise a safe value set on a tag need not reach the hardware.
+R08h the slot that is made safe is the slot that is written: a tag has a real value and, while simulated, a simulated value that
+     get_value() returns instead. Engine._apply_safe_state writes the safe value with set_value (the real slot); Engine.write_process_image
+     must read that same slot (`.value`) for the registers it writes - or _apply_safe_state must end the simulation of the tags it makes
+     safe - otherwise `Simulate: Valve = 7` followed by Pause writes 7 to the hardware on every paused tick.
 Decides whether safe values reach the hardware; what UOD callbacks compute is not modelled.
 """
 from __future__ import annotations
@@ -232,6 +236,29 @@ def run(ctx) -> None:
                  f"restores the outputs, and the safe state is only applied in Stop's closing segment | history: {hist} | state: {show(t_)}",
                  function="openpectus.engine (run-state machine)")
     _write_image_complete(ctx)
+    # ---- R08h
+    ctx.rule("R08h", "the safe value is written to the slot the hardware write reads")
+    ass = eng.methods.get("_apply_safe_state")
+    wpi = eng.methods.get("write_process_image")
+    if ass is None or wpi is None:
+        raise AnchorError("Engine._apply_safe_state / write_process_image missing")
+    ctx.analysed(ass)
+    sets_real = any(isinstance(c, ast.Call) and call_attr(c) == "set_value" and c.args and "safe_value" in norm(c.args[0]) for c in walk_no_nested(ass.node))
+    ends_sim = any(isinstance(c, ast.Call) and call_attr(c) == "stop_simulation" for c in walk_no_nested(ass.node))
+    reads_masked = [c for c in walk_no_nested(wpi.node) if isinstance(c, ast.Call) and call_attr(c) in ("get_value", "as_float", "as_number")
+                    and "_tags[" in norm(c.func)]
+    reads_real = [a for a in walk_no_nested(wpi.node) if isinstance(a, ast.Attribute) and a.attr == "value" and "_tags[" in norm(a.value)]
+    if not sets_real:
+        raise AnchorError("_apply_safe_state: set_value(<safe_value>, ..) not found")
+    if not reads_masked and not reads_real:
+        raise AnchorError("write_process_image: read of the register's tag not found")
+    inst = "_apply_safe_state and write_process_image agree on the value slot of an output tag"
+    if ends_sim or not reads_masked:
+        ctx.ok("R08h", inst)
+    else:
+        ctx.fail("R08h", wpi, reads_masked[0], inst, f"_apply_safe_state sets the real value of the tag while write_process_image writes `{norm(reads_masked[0])[:50]}`, "
+                 "which returns the simulated value while the tag is simulated: `Simulate: Valve = 7` (Valve an output with safe value 0), "
+                 "then Pause - the engine writes Valve=7.0 to the hardware on every tick of the pause")
 
 
 def _reaches(ctx, f, target_name: str, depth: int, seen=None, chain=()):
